@@ -388,6 +388,32 @@ def sub_transform_ok(case):
     return "transform_ok/%s/%s" % (how, "sim3" if case["sim3"] else "se3")
 
 
+def _transform_bad_cli(p, kind, how, case):
+    """the same invalid file handed to evo_traj --transform_left/right: refused with evo's error, nothing exported"""
+    from vf import cli
+    d = tempfile.mkdtemp(prefix="c07tf_", dir=os.getcwd())
+    T = np.arange(4, dtype=float) + 10.0
+    P = np.arange(12, dtype=float).reshape(4, 3)
+    Q = np.tile([0.0, 0.0, 0.0, 1.0], (4, 1))
+    open(os.path.join(d, "t.txt"), "w").write(rm.write_tum(T, P, np.tile([1.0, 0.0, 0.0, 0.0], (4, 1))))
+    outd = os.path.join(d, "out")
+    os.makedirs(outd)
+    flag = ["--transform_left", "--transform_right", "--transform_right"][case["k"] % 3]
+    argv = ["tum", os.path.join(d, "t.txt"), flag, str(p), "--save_as_tum", "--no_warnings", "--silent"]
+    if case["k"] % 3 == 2:
+        argv.append("--propagate_transform")
+    if case["k"] % 2:
+        argv.append("--invert_transform")
+    out = cli.run("traj", argv, cwd=outd)
+    if out.exit_code == 0 or os.listdir(outd):
+        raise Mismatch("evo_traj %s with an invalid transform file (%s via %s) %s" % (
+            " ".join(argv[2:]), kind, how, "exported " + str(sorted(os.listdir(outd))) if os.listdir(outd) else "did not fail"),
+            observed="malformed_accepted", fmt="transform_cli", defect=kind)
+    if "FileInterfaceException" not in str(out.refused):
+        raise Mismatch("evo_traj with an invalid transform file (%s) failed with %s instead of evo's file-format error" % (kind, out.refused),
+                       observed="wrong_error", fmt="transform_cli", defect=kind)
+
+
 def sub_transform_bad(case):
     R = gen.rot_matrix(case["rot"])
     t = np.asarray(case["t"], dtype=float) * float(case["mag"])
@@ -435,6 +461,9 @@ def sub_transform_bad(case):
         with np.errstate(all="ignore"):
             got = file_interface.load_transform(p)
     except FileInterfaceException:
+        if case.get("via_cli"):
+            _transform_bad_cli(p, kind, how, case)
+            return "transform_bad/%s/evo_traj" % kind
         return "transform_bad/" + kind
     raise Mismatch("invalid transform (%s via %s) was loaded:\n%s" % (kind, how, np.asarray(got).tolist()), observed="malformed_accepted",
                    fmt="transform", defect=kind)
@@ -464,7 +493,7 @@ st_tf = st.fixed_dictionaries({
     "rot": gen.st_rotation, "t": st.lists(gen.unit_f, min_size=3, max_size=3), "mag": gen.log_uniform(-3, 6), "s": gen.log_uniform(-3, 3),
     "sim3": st.booleans(), "explicit_scale": st.booleans(), "how": st.sampled_from(["npy", "txt", "json"]),
     "spell": st.lists(st.sampled_from(["repr", "e18", "g17", "plus"]), min_size=1, max_size=4), "crlf": st.booleans(),
-    "via": st.sampled_from(["str", "pathlib"]), "k": st.integers(0, 20),
+    "via": st.sampled_from(["str", "pathlib"]), "k": st.integers(0, 20), "via_cli": st.sampled_from([False, False, True]),
     "bad": st.sampled_from(["shape34", "shape43", "shape55", "flat16", "reflection", "sheared", "rowscaled", "bottom", "json_key", "json_scale_zero",
                             "json_scale_negative"])})
 
